@@ -38,7 +38,15 @@ pub struct CsvCmp {
 /// Compare the four csvdump files in `dump` with the model, for the range the
 /// file names carry. `addr`: also compare the address column (where the model is certain).
 pub fn compare_csvdump(pfx: &str, m: &Model, o: &RunOutcome, addr: bool, st: &mut Stats) -> Result<CsvCmp, Violation> {
-    let b = final_files(&o.dump, "blocks");
+    let mut b = final_files(&o.dump, "blocks");
+    if b.len() > 1 {
+        // other results live in the folder: take the one this run produced
+        let changed = new_or_changed(o);
+        let mine: Vec<_> = b.iter().filter(|f| changed.contains(&f.2)).cloned().collect();
+        if mine.len() == 1 {
+            b = mine;
+        }
+    }
     if b.len() != 1 {
         return Err(viol(format!("{}/files-missing", pfx), format!("expected exactly one blocks-*.csv, found {} ({:?})", b.len(), o.dump.keys().collect::<Vec<_>>())));
     }
@@ -46,8 +54,8 @@ pub fn compare_csvdump(pfx: &str, m: &Model, o: &RunOutcome, addr: bool, st: &mu
     let x = m.csv(s, e);
     let mut rows = [0u64; 4];
     for (k, (stem, exp)) in [("blocks", &x.blocks), ("transactions", &x.transactions), ("tx_in", &x.tx_in), ("tx_out", &x.tx_out)].iter().enumerate() {
-        let f = final_files(&o.dump, stem);
-        if f.len() != 1 || (f[0].0, f[0].1) != (s, e) {
+        let f: Vec<_> = final_files(&o.dump, stem).into_iter().filter(|f| (f.0, f.1) == (s, e)).collect();
+        if f.len() != 1 {
             return Err(viol(format!("{}/files-missing", pfx), format!("{}-{}-{}.csv missing", stem, s, e)));
         }
         let got = f[0].3;
@@ -88,7 +96,7 @@ pub fn compare_csvdump(pfx: &str, m: &Model, o: &RunOutcome, addr: bool, st: &mu
 
 /// compare an unspent / balances file (header + row set) with the model
 pub fn compare_rowset(pfx: &str, stem: &str, header: &str, want: &[String], o: &RunOutcome) -> Result<(u64, u64), Violation> {
-    let f = final_files(&o.dump, stem);
+    let f = run_files(o, stem);
     if f.len() != 1 {
         return Err(viol(format!("{}/files-missing", pfx), format!("expected exactly one {}-*.csv, found {}", stem, f.len())));
     }
@@ -125,8 +133,21 @@ pub fn compare_rowset(pfx: &str, stem: &str, header: &str, want: &[String], o: &
     Ok((f[0].0, f[0].1))
 }
 
+/// final files of `stem` this run produced (all of them if that cannot be told apart)
+pub fn run_files<'a>(o: &'a RunOutcome, stem: &str) -> Vec<(u64, u64, &'a String, &'a Vec<u8>)> {
+    let all = final_files(&o.dump, stem);
+    if all.len() > 1 {
+        let changed = new_or_changed(o);
+        let mine: Vec<_> = all.iter().filter(|f| changed.contains(&f.2)).cloned().collect();
+        if mine.len() == 1 {
+            return mine;
+        }
+    }
+    all
+}
+
 pub fn range_of_files(o: &RunOutcome, stem: &str) -> Option<(u64, u64)> {
-    let f = final_files(&o.dump, stem);
+    let f = run_files(o, stem);
     if f.len() == 1 {
         Some((f[0].0, f[0].1))
     } else {
